@@ -59,7 +59,9 @@ def rand_text(r, maxlen=12) -> str:
     kinds = r.random()
     if kinds < 0.08:
         # texts that are falsy, or look like numbers / JSON words
-        return r.choice(['0', '', '00', 'None', 'null', 'false', 'true', '-1', '1e3', ' 7', 'NaN'])
+        return r.choice(['0', '', '00', 'None', 'null', 'false', 'true', '-1', '1e3', ' 7', 'NaN', '007',
+                         # not in Unicode normal form C (they must come back as they are)
+                         'Ame\u0301lie', 'board-\u2126', '\u1100\u1161', 'A\u030a \u212b', 'n\u0303o'])
     n = r.randrange(0, maxlen)
     out = []
     for _ in range(n):
@@ -132,8 +134,13 @@ def rand_result(r):
                                 declarer=Player(r.randrange(4) + 1))
             bids = [Bid.int_to_bid(r.randrange(38)) for _ in range(r.randrange(0, 12))]
     po = contract.is_passed_out()
+    recorded = None
     if po:
         play, taken = None, None
+        if r.random() < 0.15:
+            play, recorded = PlayingHistory(contract), []     # an empty history object, not None
+    elif r.random() < 0.1:
+        play, taken, recorded = None, r.randrange(0, 14), None   # a result-only record: no play kept
     else:
         play = PlayingHistory(contract)
         ntr = r.choice([0, 1, 13, 13, 13, r.randrange(0, 14)])
@@ -173,7 +180,7 @@ def rand_result(r):
                         'xx': bool(contract.xx), 'vul': contract.vul.value - 1,
                         'decl': NOSEAT if contract.declarer is None else contract.declarer.value - 1},
            'play': NONE if play is None else
-           {'v': [{'leader': t['leader'], 'cards': list(t['cards'])} for t in recorded]},
+           {'v': [{'leader': t['leader'], 'cards': list(t['cards'])} for t in (recorded or [])]},
            'taken': NONE if taken is None else {'v': taken},
            'scoring': scoring.value, 'scores': [scores[Pair.NS], scores[Pair.EW]],
            'dda': proj_dda(dda)}
